@@ -6,7 +6,8 @@
 From Coq Require Import ZArith Bool List.
 Import ListNotations.
 From BioVerif Require Import Lib.Word Model.NetArith Model.IPText Spec.NetSpec
-  Proofs.NetProofs Proofs.NetSupernet Proofs.IPTextRoundTrip Proofs.IPTextPrefix.
+  Proofs.NetProofs Proofs.NetSupernet Proofs.IPTextRoundTrip Proofs.IPTextPrefix
+  Gen.NetGen Proofs.NetGenTransfer.
 Open Scope Z_scope.
 
 (* ---- containment (strict), equality ---- *)
@@ -164,6 +165,55 @@ Theorem C15_parse_format_pfx : forall p s a',
   PrefixFromString (s ++ [c_slash] ++ fmt_dec (plen p)) = Some (mkpfx a' (plen p)).
 Proof. exact parse_format_pfx. Qed.
 Print Assumptions C15_parse_format_pfx.
+
+(* ---- the model regenerated from the Go source on this run (Gen/NetGen.v, tools/gosub2coq) ---- *)
+(* every translated function equals its hand-written transcription, so every theorem above holds
+   for what net/prefix.go and net/ip.go say NOW; two of them restated directly *)
+Theorem C15_generated_model_agrees :
+  (forall p x, g_Prefix_Contains p x = Contains p x) /\
+  (forall p x, g_Prefix_containsIPv4 p x = containsIPv4 p x) /\
+  (forall p x, g_Prefix_containsIPv6 p x = containsIPv6 p x) /\
+  (forall p x, g_Prefix_Equal p x = pfx_equal p x) /\
+  (forall a b, g_IP_Equal a b = ip_equal a b) /\
+  (forall a b, g_IP_Compare a b = ip_compare a b) /\
+  (forall p x, g_Prefix_supernetIPv4 p x = supernetIPv4 p x) /\
+  (forall p x, g_Prefix_supernetIPv6 p x = supernetIPv6 p x) /\
+  (forall p x, g_Prefix_GetSupernet p x = GetSupernet p x) /\
+  (forall p, g_Prefix_Valid p = Valid p) /\
+  (forall x n, g_checkLastNBitsUint32 x n = checkLastNBitsUint32 x n) /\
+  (forall x n, g_checkLastNBitsUint64 x n = checkLastNBitsUint64 x n) /\
+  (forall p, g_Prefix_baseAddr4 p = baseAddr4 p) /\
+  (forall p, g_Prefix_baseAddr6 p = baseAddr6 p) /\
+  (forall p, g_Prefix_BaseAddr p = BaseAddr p) /\
+  (forall a pos, g_IP_BitAtPosition a pos = BitAtPosition a pos) /\
+  (forall a pos, g_IP_bitAtPositionIPv4 a pos = bitAtPositionIPv4 a pos) /\
+  (forall a pos, g_IP_bitAtPositionIPv6 a pos = bitAtPositionIPv6 a pos) /\
+  (forall a n, g_IP_MaskLastNBits a n = MaskLastNBits a n) /\
+  (forall a n, g_IP_maskLastNBitsIPv4 a n = maskLastNBitsIPv4 a n) /\
+  (forall a n, g_IP_maskLastNBitsIPv6 a n = maskLastNBitsIPv6 a n) /\
+  (forall a, g_IP_ToUint32 a = ToUint32 a) /\
+  (forall a b, g_min a b = wminu a b) /\
+  (forall v, g_IPv4 v = IPv4 v) /\ (forall h l, g_IPv6 h l = IPv6 h l) /\ (forall a l, g_NewPfx a l = NewPfx a l).
+Proof. exact generated_model_agrees. Qed.
+Print Assumptions C15_generated_model_agrees.
+
+Theorem C15_contains_gen : forall p x, wf_pfx p -> wf_pfx x ->
+  (g_Prefix_Contains p x = true <-> contains_spec p x).
+Proof. exact Contains_gen_correct. Qed.
+Print Assumptions C15_contains_gen.
+
+Theorem C15_supernet_trie_gen : forall p x,
+  wf_pfx p -> wf_pfx x -> same_family (addr p) (addr x) ->
+  g_Prefix_Valid p = true -> g_Prefix_Valid x = true ->
+  g_Prefix_Equal p x = false -> g_Prefix_Contains p x = false -> g_Prefix_Contains x p = false ->
+  exists s, g_Prefix_GetSupernet p x = Some s /\
+    let k := lcp (pbits p) (pbits x) in
+    plen s = Z.of_nat k /\ pbits s = supernet_bits k p /\
+    wf_pfx s /\ same_family (addr s) (addr p) /\
+    g_Prefix_Contains s p = true /\ g_Prefix_Contains s x = true /\ g_Prefix_Valid s = true /\
+    g_IP_BitAtPosition (addr p) (plen s + 1) <> g_IP_BitAtPosition (addr x) (plen s + 1).
+Proof. exact GetSupernet_gen_trie. Qed.
+Print Assumptions C15_supernet_trie_gen.
 
 (* ---- non-vacuity ---- *)
 (* 2001:db8::/48 does not contain 2001:db8:ffff::/64 (it did before the fix of the masks) *)
